@@ -79,7 +79,21 @@ impl E2Run for Dns {
                         sim::count("probe_names_differing_only_in_case");
                     }
                 }
-                let ip = [10 + sim::choose(200) as u8, sim::choose(256) as u8, sim::choose(256) as u8, 1 + sim::choose(254) as u8];
+                // names that look like something else: address literals, well-known host names, numbers
+                if sim::chance(1, 8) {
+                    let special = ["10.1.2.3", "0.0.0.0", "255.255.255.255", "127.0.0.1", "10.0.0.1", "localhost", "1", "0", ".", "a.b.c.d", "1.2.3", "1.2.3.4.5", "::1", "-", "*"];
+                    let cand = special[sim::choose(special.len() as u64) as usize].to_string();
+                    if !recs.iter().any(|(n, _)| *n == cand) {
+                        name = cand;
+                        sim::count("probe_name_that_looks_like_an_address_or_keyword");
+                    }
+                }
+                let mut ip = [10 + sim::choose(200) as u8, sim::choose(256) as u8, sim::choose(256) as u8, 1 + sim::choose(254) as u8];
+                // "arbitrary addresses" includes the ones code likes to treat as placeholders
+                if sim::chance(1, 8) {
+                    ip = *[[0u8, 0, 0, 0], [255, 255, 255, 255], [127, 0, 0, 1], [10, 0, 0, 1], [0, 0, 0, 1], [224, 0, 0, 1]].get(sim::choose(6) as usize).unwrap();
+                    sim::count("probe_registered_address_is_a_special_one");
+                }
                 recs.push((name, ip));
             }
             for (n, ip) in &recs {
